@@ -3,7 +3,7 @@
    than `max` elements (max derived from =, <, <=, one_of count filters) and it truncates a fold to
    `min` elements (`take(min)`, min derived from >, >= count filters) when it believes nothing observes
    the count or the contents. *)
-From TF Require Import Exec Sem Sim SimComp SimOut SimFold SimGen SimFull FoldLimits Run.
+From TF Require Import Exec Sem Sim SimComp SimOut SimFold SimGen SimFull FoldLimits Run SemT SimGenT SimFullT EraseSem EraseWf SimFinal.
 Local Open Scope string_scope.
 
 (* Maximum side, for every sign and magnitude of the arguments (negative values clamp to 0, `<` uses
@@ -47,12 +47,54 @@ Print Assumptions C22_max_early_termination_invisible_in_rows.
    depth inside the fold, no count output, and no use of the count tag by a filter of the parent
    component's vertices, by a count filter of one of the parent component's folds, or inside one of
    those folds (import).  Before the repair of genuine defect F9 the test looked only at the fold's OWN
-   outputs and at vertex filters; the two worlds below are the witnesses that refuted invisibility then
-   (the model and the real engine returned `o1=[]`, resp. no rows).  They are kept as regression
-   examples: with the repaired test both folds are ineligible and the model agrees with the
-   specification.  A proof that truncating an ELIGIBLE fold is invisible is still missing
-   (the theorems above cover queries without eligible folds); eligible worlds are decided against the
-   specification by the oracle cases of every run, and C22_min_truncation_eligible_example is one. *)
+   outputs and at vertex filters, and invisibility was FALSE (the two regression worlds further down
+   were its kernel-checked refutation).  With the repaired test it is a theorem: *)
+
+(* why the REPAIRED eligibility test is the right one: when every reference to a fold count names the
+   fold's root consistently (frontend invariant, C11), no filter, import or count filter of the component
+   reads the count of a fold that passes min_eligible - which is the `reads_ok_here` part of `erasable` *)
+Theorem C22_repaired_eligibility_suffices :
+  forall vs ss, refs_consistent_here vs ss = true -> reads_ok_here vs ss = true.
+Proof. exact consistent_reads_ok. Qed.
+Print Assumptions C22_repaired_eligibility_suffices.
+
+(* the count filters that define the minimum cannot tell min(n, m) from n *)
+Theorem C22_min_limit_sound :
+  forall re g args vs ss imp a a' cur cur_ty cand h m n,
+    get_min_fold_count_limit args h = Ok (Some m) -> (m < usize_max)%Z -> (0 <= n)%Z ->
+    forallb (fun pf => filter_passes re (pf_op pf) true (U64 (Z.min n (Z.max m 0)))
+                         (option_map (arg_value g args vs ss imp a cur cur_ty cand) (pf_arg pf))) (fo_post h)
+    = forallb (fun pf => filter_passes re (pf_op pf) true (U64 n)
+                           (option_map (arg_value g args vs ss imp a' cur cur_ty cand) (pf_arg pf))) (fo_post h).
+Proof. exact min_limit_sound. Qed.
+Print Assumptions C22_min_limit_sound.
+
+(* the specification WITH the truncation (SemT: a fold with trunc_of = Some m keeps its first m
+   elements) and the specification without it produce the same rows *)
+Theorem C22_truncating_spec_equals_spec :
+  forall re g args q, erasable args (q_comp q) -> sem_t re g args q = sem re g args q.
+Proof. exact sem_t_eq_sem. Qed.
+Print Assumptions C22_truncating_spec_equals_spec.
+
+(* the interpreter model computes exactly the truncating specification, for every query *)
+Theorem C22_engine_refines_truncating_spec :
+  forall re g args q rows, ty_indep g ->
+    wf_comp_t [] (q_comp q) -> wf_out (q_comp q) -> NoDup (all_output_names (q_comp q)) ->
+    interpret re g args q = Ok rows ->
+    Forall2 row_equiv rows (sem_t re g args q).
+Proof. intros re g args q rows Hi. exact (interpret_spec_t re g args Hi q rows). Qed.
+Print Assumptions C22_engine_refines_truncating_spec.
+
+(* hence BOTH early terminations are invisible in the rows *)
+Theorem C22_early_termination_invisible :
+  forall re g args q rows, ty_indep g ->
+    wf_comp_t [] (q_comp q) -> wf_out (q_comp q) -> NoDup (all_output_names (q_comp q)) ->
+    erasable args (q_comp q) ->
+    interpret re g args q = Ok rows ->
+    Forall2 row_equiv rows (sem re g args q).
+Proof. intros re g args q rows Hi. exact (interpret_refines_sem re g args Hi q rows). Qed.
+Print Assumptions C22_early_termination_invisible.
+
 (* F9a: a fold whose only outputs are inside a NESTED fold, with count filter `>= $a`, a = 0:
    take(0) emptied the outer fold, and the nested output list was lost. *)
 Definition f9a_exec := run_exec (re_table [] []) (mkDS [(1%N, "Gadget")] [(1%N, [("flag", (Boolv true)); ("id", (I64 1%Z)); ("name", (Str "a")); ("nums", (List [(I64 (-9223372036854775808)%Z)])); ("power", (I64 4%Z)); ("ratio", (F64 0%N)); ("score", (I64 (-3)%Z)); ("tags", (List [(Str "ba")]))])] [(1%N, [("gears", [1%N; 1%N; 1%N]); ("next", [1%N; 1%N])])] [("Box", []); ("Gadget", [1%N]); ("Item", []); ("Leaf", []); ("Thing", [1%N])] [("Thing", ["Box"; "Leaf"; "Gadget"]); ("Item", ["Box"; "Leaf"]); ("Box", ["Box"]); ("Leaf", ["Leaf"]); ("Gadget", ["Gadget"])]) (mkRQ "Thing" [("hi", Null); ("lo", Null)] (RComp 1%N [(mkV 1%N "Thing" None [])] [] [(RFold (mkFH 1%N 1%N 2%N "next" [("hi", (I64 1000%Z)); ("lo", Null)] [] [] [(mkPF GreaterThanOrEqual (Some (AVar "a" (mkTy "Int" 1%N))))]) (RComp 2%N [(mkV 2%N "Thing" None [(mkVF IsNotNull "flag" (mkTy "Boolean" 0%N) None)])] [] [(RFold (mkFH 2%N 2%N 3%N "next" [("hi", (I64 1000%Z)); ("lo", Null)] [] [] []) (RComp 3%N [(mkV 3%N "Thing" None [])] [] [] [("o1", (mkCF 3%N "id" (mkTy "Int" 1%N)))]))] []))] [("o0", (mkCF 1%N "id" (mkTy "Int" 1%N)))]) [("a", (mkTy "Int" 1%N))]) [("a", (I64 0%Z))].
